@@ -3,7 +3,7 @@
     RawFileSystem._resolve_path raises RootEscapeError, regenerated from filesys.py into Gen/Containment_gen.v. *)
 From Coq Require Import List NArith Bool.
 From SV Require Import SM.PathNorm SM.PathNormProofs SM.PathOps SM.PathOpsProofs SM.PathWalkRel SM.PathMemo SM.PathMemoProofs
-  SM.PathHistory SM.PathHistoryProofs Gen.Containment_gen Gen.FsOps_gen.
+  SM.PathHistory SM.PathHistoryProofs SM.PathProperty SM.PathPropertyProofs Gen.Containment_gen Gen.FsOps_gen Gen.FsCensus_gen.
 Import ListNotations.
 
 (** Census obligation: every file-system access of RawFileSystem goes through _resolve_path. *)
@@ -311,3 +311,151 @@ Theorem c18_history_key_without_flag_refuted :
   hist_run true guard_rstrip_sep (s2l "/w") (fun c => c) [] fault_ops = [Some (s2l "/t/secret.txt"); None] /\
   map (op_plain guard_rstrip_sep (s2l "/w")) fault_ops = [Some (s2l "/t/secret.txt"); None].
 Proof. exact hist_key_without_flag_refuted. Qed.
+
+(** ------------------------------------------------------------------ the whole property in one statement (round 4).
+    [today]: every object the translators regenerate from /repo/src/srctools on each run, as one record. *)
+Close Scope string_scope.
+Definition today : source :=
+  {| src_guard := raise_if;
+     src_root_abs := root_is_abspath;
+     src_root_reassigned := root_reassigned_in_class;
+     src_flag_ctor := constrain_flag_is_the_constructor_argument;
+     src_ctor_sig := constructor_signature_ok;
+     src_sites := raw_sites;
+     src_other := other_sites;
+     src_chain := chain_calls;
+     src_entries := entry_points;
+     src_entry_unread := entry_unread;
+     src_census := [resolve_path_wrappers; method_wrappers; shared_mutable_state; foreign_patches; foreign_subclasses;
+                    decorator_origins; reachable_foreign_caches; per_object_state; unconstrained_constructions; unexpected_bases] |}.
+(** Named parts of [source_ok today] (each an instance obligation of the check; their conjunction is the hypothesis). *)
+Definition no_foreign_patch_subclass_decorator_or_cache : bool :=
+  nilb foreign_patches && nilb foreign_subclasses && nilb decorator_origins && nilb reachable_foreign_caches
+  && nilb unexpected_bases.
+Definition objects_keep_no_table_or_outside_state : bool := nilb per_object_state && constructor_signature_ok.
+Definition package_factories_construct_constrained_systems : bool := nilb unconstrained_constructions.
+Definition entry_points_land_on_access_methods : bool := routes_ok today.
+Definition c18_property_hypotheses_hold_today : bool := source_ok today.
+
+(** C18.  For EVERY source whose generated objects pass [source_ok] (sound segment-wise guard; every OS call of RawFileSystem
+    receives a _resolve_path result and File / FileSystem / FileSystemChain make no OS call of their own; the constructor
+    stores abspath(path) and the flag, nothing else, nothing reassigns them; every entry point and chain call lands on a
+    method with such a call; all censuses — wrappers, shared state, per-object tables, monkey patches, subclass overrides,
+    decorator origins, cached foreign functions, over the whole package — are empty), every absolute working directory and
+    EVERY history of steps — a step is a call by user code that reaches, through any route of entry points and chain calls
+    with any prefixes (nested chains: several chain hops), any OS call site of any RawFileSystem object (any root,
+    constrained or not), on arbitrary strings (argument, File handle strings) — with a memo table under any entry-dropping
+    policy whose key covers the steps, or with no table at all:
+    the table is invisible; every path a constrained object hands to the operating system is inside that object's root
+    (absolute, '..'-free, the root's segments a prefix); and everything a folder walk started there lists and finds is
+    inside as well, for every os.walk obeying the entry-name contract.  A step that raises RootEscapeError hands nothing
+    to the OS ([None]).  Containment is lexical ([abspath]; see the c18_symlink theorems). *)
+Theorem c18_property :
+  forall s, source_ok s = true ->
+  forall cwd, is_abs cwd = true ->
+  forall wf evict steps,
+    (only_drops evict /\ forallb (step_covered wf) steps = true) \/ evict = (fun _ => []) ->
+    let run := prop_run wf (src_guard s) cwd evict [] steps in
+    run = map (step_plain (src_guard s) cwd) steps /\
+    (forall n st a, nth_error steps n = Some st -> sp_con st = true -> In (sp_site st) (all_sites s) ->
+       nth_error run n = Some (Some a) -> inside (abspath cwd (sp_root st)) a) /\
+    (forall os_walk, walk_contract os_walk ->
+     forall n st top d fs f, nth_error steps n = Some st -> sp_con st = true -> In (sp_site st) (all_sites s) ->
+       nth_error run n = Some (Some top) -> In (d, fs) (os_walk top) ->
+       inside (abspath cwd (sp_root st)) d /\ (In f fs -> inside (abspath cwd (sp_root st)) (pjoin d f))).
+Proof. exact property_holds. Qed.
+
+(** ... instantiated with today's source (no table: the censuses are part of [source_ok today], the instance obligation
+    c18_property_hypotheses_hold_for_todays_source). *)
+Theorem c18_property_today :
+  source_ok today = true ->
+  forall cwd, is_abs cwd = true ->
+  forall steps n st a, nth_error steps n = Some st -> sp_con st = true -> In (sp_site st) raw_sites ->
+    nth_error (prop_run true raise_if cwd (fun _ => []) [] steps) n = Some (Some a) ->
+    inside (abspath cwd (sp_root st)) a.
+Proof.
+  intros Hok cwd Hc steps n st a Hn Hcon Hin Hr.
+  apply (property_accesses_inside_no_table today Hok cwd Hc true steps n st a Hn Hcon); [|exact Hr].
+  unfold all_sites. apply in_or_app. left. exact Hin.
+Qed.
+
+(** The hypotheses are satisfiable (a source with entry points and a chain; user code indexing a chain inside a chain) and
+    the run does what the implementation does: the name arrives as x/sub/a.txt; backslash and slash traversal are refused
+    for the constrained member and go through for an unconstrained one. *)
+Theorem c18_property_hypotheses_satisfiable :
+  source_ok example_source = true /\
+  linked "_get_file"%string (sp_route (example_step true "a"%string)) = true /\
+  prop_run true guard_rstrip_sep (s2l "/w") (fun _ => []) []
+    [example_step true "a.txt"; example_step true "..\..\..\secret.txt"; example_step false "..\..\..\secret.txt";
+     example_step true "../../../secret.txt"]
+  = [Some (s2l "/t/root/x/sub/a.txt"); None; Some (s2l "/t/secret.txt"); None].
+Proof. exact property_hypotheses_satisfiable. Qed.
+
+(** Each of the load-bearing conjuncts is needed: an OS call in FileSystem itself, a site that converts after the check
+    (seeded c18_3 / c18_5), the string-prefix guard — [source_ok] is false and a one-step history leaves the root. *)
+Theorem c18_property_hypotheses_needed_refuted :
+  (let s := with_sites [] [("FileSystem", "__contains__", "os.path.exists")]%string guard_rstrip_sep in
+   source_ok s = false /\
+   exists st, In st (all_sites s) /\
+     prop_run true (src_guard s) (s2l "/w") (fun _ => []) [] [direct st "/t/secret.txt"] = [Some (s2l "/t/secret.txt")]) /\
+  (let st := site_of "open_bin" "open" "str" (PUnbs (PResolve PArg)) in
+   let s := with_sites [st] [] guard_rstrip_sep in
+   source_ok s = false /\
+   prop_run true (src_guard s) (s2l "/w") (fun _ => []) [] [direct st "..\secret.txt"] = [Some (s2l "/t/root/../secret.txt")]) /\
+  (let st := site_of "open_bin" "open" "str" (PResolve (PUnbs PArg)) in
+   let s := with_sites [st] [] guard_strprefix in
+   source_ok s = false /\
+   prop_run true (src_guard s) (s2l "/w") (fun _ => []) [] [direct st "..\root_evil\x"] = [Some (s2l "/t/root_evil/x")]).
+Proof. exact property_hypotheses_needed_refuted. Qed.
+
+(** A table kept on one object (root and flag fixed) is transparent whatever its policy: per-object tables are harmless
+    for containment; today's source is nevertheless required to have none (census). *)
+Theorem c18_per_object_table_transparent :
+  forall g cwd evict root con, only_drops evict ->
+  forall paths,
+    memo_run true g cwd evict [] (map (fun p => {| rc_root := root; rc_con := con; rc_path := p |}) paths)
+    = map (fun p => resolve g con cwd root p) paths.
+Proof. exact per_object_table_transparent. Qed.
+
+(** Symbolic links.  The reading of "never reaches outside its root": LEXICAL — _resolve_path normalises with
+    os.path.abspath, which never consults the file system.  [real] resolves segment lists through a link table entry by
+    entry (the kernel, os.path.realpath).  (1) When no directory entry strictly below the root on the way is a link, a
+    lexically inside path is where the kernel arrives. *)
+Theorem c18_symlink_free_lexical_is_real :
+  forall lnk root a, inside root a ->
+  exists rest, segs a = (segs root ++ rest)%list /\
+    (link_free lnk (segs root) rest ->
+     real lnk (S (List.length rest)) (segs root) rest = Some (segs root ++ rest)%list).
+Proof. exact lexical_inside_is_real_without_links. Qed.
+
+(** (2) Refuted with a link inside the root: /t/root/link -> /t/outside; 'link/secret.txt' is accepted (lexically inside)
+    and the kernel opens /t/outside/secret.txt; 'link/../in.txt' is /t/root/in.txt lexically (the kernel alone would have
+    gone to /t/in.txt).  What a link inside the root points to counts as content of the root: outside C18 as read here. *)
+Theorem c18_symlink_inside_root_leaves_refuted :
+  exists cwd root_arg name a,
+    is_abs cwd = true /\ raise_sound guard_rstrip_sep = true /\
+    resolve guard_rstrip_sep true cwd root_arg name = Ok a /\
+    seg_prefixb (segs (abspath cwd root_arg)) (segs a) = true /\
+    real example_links 10 [] (segs (abspath cwd root_arg)) = Some (segs (abspath cwd root_arg)) /\
+    real example_links 10 [] (segs a) = Some [s2l "t"; s2l "outside"; s2l "secret.txt"] /\
+    seg_prefixb (segs (abspath cwd root_arg)) [s2l "t"; s2l "outside"; s2l "secret.txt"] = false /\
+    resolve guard_rstrip_sep true cwd root_arg (s2l "link/../in.txt") = Ok (s2l "/t/root/in.txt").
+Proof. exact symlink_inside_root_leaves_refuted. Qed.
+
+(** Drive letters, UNC prefixes, NUL, '..' after a component that does not exist: ordinary characters / purely lexical for
+    posixpath.  The theorems above quantify over all strings; these are computed instances (root /t/root, cwd /w, after
+    the backslash conversion every method applies). *)
+Theorem c18_foreign_syntax_examples :
+  verdict_of (s2l "C:\Windows\win.ini") = Ok (s2l "/t/root/C:/Windows/win.ini") /\
+  verdict_of (s2l "C:\..\..\secret.txt") = Escape /\
+  verdict_of (s2l "C:/../in.txt") = Ok (s2l "/t/root/in.txt") /\
+  verdict_of (s2l "\\server\share\x") = Escape /\
+  verdict_of (s2l "\\?\C:\x") = Escape /\
+  verdict_of (s2l "//t/root/in.txt") = Escape /\
+  verdict_of (s2l "///t/root/in.txt") = Ok (s2l "/t/root/in.txt") /\
+  verdict_of (s2l "nope/../../secret.txt") = Escape /\
+  verdict_of (s2l "nope/../in.txt") = Ok (s2l "/t/root/in.txt") /\
+  verdict_of (s2l "a" ++ [0%N] ++ s2l "/../../secret.txt")%list = Escape /\
+  verdict_of (s2l "in.txt" ++ [0%N] ++ s2l "/../..")%list = Escape /\
+  verdict_of (s2l "a" ++ [0%N] ++ s2l "b")%list = Ok (s2l "/t/root/a" ++ [0%N] ++ s2l "b")%list.
+Proof. exact foreign_syntax_examples. Qed.
